@@ -233,6 +233,8 @@ def ro_cases(rng, n, tier):
                 st["seed"] = rng.randrange(1000)
                 st["style"] = G.pick(rng, ["float", "float", "int", "npfloat", "mixed"])
                 ninst += 1
+            elif k == "digraph" and ninst and rng.random() < 0.3:
+                st["instance"] = rng.randrange(ninst)
             elif k in ("mutate", "match"):
                 st["instance"] = rng.randrange(max(1, ninst))
                 if k == "mutate":
@@ -346,7 +348,7 @@ def ro_check(case):
                 inst = p(**_call_values(p, st["seed"], st["style"]))
                 instances.append([inst, _snap(inst)])
             elif do == "digraph":
-                graph = to_DiGraph(p)
+                graph = to_DiGraph(instances[st["instance"] % len(instances)][0] if "instance" in st and instances else p)
             elif do == "match":
                 if instances:
                     match_template(p, instances[st["instance"] % len(instances)][0])
